@@ -196,6 +196,12 @@ def common_obligations(ctx, repo, pid):
         # ARCDOM rule: arccos / arcsin of a floating-point product must be clipped or rounded into [-1, 1]
         from .rules.params import check_arc_domain
         check_arc_domain(ctx, repo, pid, scope, report_modules=mods)
+        # EMPTYIDX rule: an index array built from a filtered selection needs an integer dtype (empty selection -> float64 -> IndexError)
+        from .rules.params import check_empty_index
+        check_empty_index(ctx, repo, pid, scope, report_modules=mods)
+        # LENGUARD rule: a minimum-length guard must cover the constant subscripts of the routine it guards
+        from .rules.params import check_len_guards
+        check_len_guards(ctx, repo, pid, scope, report_modules=mods)
 
 
 def run_sentinels(ctx: Ctx, pid: str):
